@@ -141,6 +141,21 @@ def _run_unit(unit_name, rlimit=None, extra_args=()):
             infra.append(msg + (" @%s:%s" % (prim[0]["file_name"], prim[0]["line_start"]) if prim else ""))
             continue
         sp = prim[0]
+        macro_name = None
+        if os.path.basename(sp.get("file_name", "")) != os.path.basename(out):
+            # the primary span lies inside a std macro (panic!, unreachable!, assert!, ...): walk the expansion chain back to our file
+            e = sp.get("expansion")
+            while e:
+                macro_name = e.get("macro_decl_name") or macro_name
+                if os.path.basename(e["span"].get("file_name", "")) == os.path.basename(out):
+                    sp = e["span"]; break
+                e = e["span"].get("expansion")
+            else:
+                infra.append(msg + " @" + str(prim[0].get("file_name")))
+                continue
+            if kind == "precondition":
+                kind = "unwrap"   # a panicking macro is reachable
+                msg = "%s is reachable (%s)" % (macro_name or "a panicking macro", msg)
         ln_no = sp["line_start"]
         o = origin[ln_no - 1] if 0 < ln_no <= len(origin) else dict(owner=None, label=None, kind="?", src=None)
         # the label of a multi-line clause is the label in force at its first line
